@@ -96,6 +96,7 @@ def impl_fn(case):
     kw = {"t_stage": case["t"], "mode": case["mode"]}
     if case["cls"] == "ml":
         kw.update({"midext": case["midext"], "central": case["central"]})
+    impl.prime_with_flipped_kinds(m, case, lambda mm: mm.risk(involvement=case["inv"], given_diagnosis=case["diag"], **kw))
     out = {}
     def call(key, fn):
         try:
